@@ -26,7 +26,10 @@ for ID in sys.argv[1:]:
         if m.get("property") != ID:
             continue
         idea = name.split("-", 1)[1].replace("-", " ")
-        taken.append(f"- {idea} (needs: {m.get('needs_to_manifest','')})")
+        needs = m.get('needs_to_manifest', '')
+        for cut in ("; missed", " (missed", "; caught", "missed until"):
+            needs = needs.split(cut)[0]
+        taken.append(f"- {idea} (needs: {needs.strip()})")
     # changes archived under another property's name that nevertheless hit this property's code are not listed
     out = []
     out.append(f"PROPERTY {ID}: {p['title']}\n")
